@@ -521,7 +521,7 @@ def run_C10(ctx):
     ]
     cplan = [("rel", p, 2, 1, {}) for p in ("D1", "D2", "D3")] + [("dbg", "D1", 1 if q else 2, 0, {}), ("sec", "D3", 1 if q else 2, 0, {})]
     # three threads: delete vs two frees into one full page; a freeing thread may stay descheduled across twelve consecutive pauses of the deleting one
-    cplan += [("rel", "D4", 3, 0, {"VF_FREE_SPINS": "12"}), ("rel", "D4", 2, 1, {})] + ([] if q else [("dbg", "D4", 3, 0, {"VF_FREE_SPINS": "12"})])
+    cplan += [("rel", "D4", 3 if q else 4, 0, {"VF_FREE_SPINS": "12"}), ("rel", "D4", 2, 1, {})] + ([] if q else [("dbg", "D4", 3, 0, {"VF_FREE_SPINS": "12"})])
     if not q: cplan += [("rel", "D1", 3, 1, {}), ("rel", "D3", 3, 1, {}), ("rel", "D2", 3, 1, {})]
     race = race_jobs(ctx, [(p, {}) for p in ("D1", "D2", "D3")])
     res = conc_property(ctx, conc_jobs(ctx, cplan),
@@ -534,7 +534,7 @@ def run_C14(ctx):
     P0 = {"MIMALLOC_PURGE_DELAY": "0"}
     plan = [("rel", "A1", 2, 1, {}), ("rel", "A3", 2, 1, {}), ("rel", "A2", 2, 1, {}), ("rel", "A2", 2, 1, P0), ("rel", "A1", 2, 0, P0), ("dbg", "A3", 1 if q else 2, 0, {}), ("dbg", "A2", 1 if q else 2, 0, P0), ("rel", "A4", 2, 0, {}), ("dbg", "A4", 1, 0, {})]
     if not q: plan += [("rel", "A4", 3, 1, {}), ("rel", "A1", 3, 1, {}), ("rel", "A3", 3, 2, {}), ("rel", "A2", 3, 1, P0), ("sec", "A2", 2, 1, P0)]
-    bjobs = conc_jobs(ctx, [("rel", "B1", 3 if q else 6, 0, {}), ("rel", "B2", 2 if q else 3, 0, {}), ("rel", "B3", 2 if q else 3, 0, {}), ("rel", "B4", 2 if q else 3, 0, {})], harness="h_bitmap") if os.path.exists(os.path.join(ctx.verif, "harness", "h_bitmap.c")) else []
+    bjobs = conc_jobs(ctx, [("rel", "B1", 3 if q else 6, 0, {}), ("rel", "B2", 2 if q else 4, 0, {}), ("rel", "B3", 2 if q else 4, 0, {}), ("rel", "B4", 2 if q else 4, 0, {})], harness="h_bitmap") if os.path.exists(os.path.join(ctx.verif, "harness", "h_bitmap.c")) else []
     race = race_jobs(ctx, [("A1", {}), ("A2", {}), ("A3", {}), ("A2", P0), ("A1", P0)])
     return conc_property(ctx, conc_jobs(ctx, plan) + bjobs, extra_jobs=race,
         rule=RACE_NOTE.strip() + " A4: one- and two-block claims (the path of ordinary segments) in an arena of two bitmap words whose first word is full, then frees in the first word; final oracle of every arena program: after everything was freed the arena can be allocated block by block (from wherever the last claims landed) and then in one piece. B4 (bitmap seam): claims of exactly one whole field (64 bits) in fields whose bit 0 is free, racing each other, a 3-bit claim and a purge-style claim of the field. Arena seam (real _mi_arena_alloc_aligned / _mi_arena_free / _mi_arenas_collect on a private exclusive arena): A1 (70-block arena with 60 blocks taken: three threads claim 5, 4 and 3 blocks so that claims cross the bitmap word boundary and compete, two free again), A3 (a cross-word claim loses its final word to a competing claim and rolls back its initial word while a third thread frees other blocks of that word), A2 (arena free -- which schedules or performs a purge -- racing allocations that may take the same blocks, plus a collector after a clock tick), with purge delay default and 0. Oracle: successful claims are pairwise disjoint and inside the arena; the first and last 64 KiB of every claimed range keep their pattern (a purge racing a claim would zero it); at quiescence the in-use bitmap holds only the left-over bits and the whole arena can be allocated in one piece.",
